@@ -720,3 +720,58 @@ Lemma stmts_emitted pr fuel b st ls st' t :
   compile_stmts pr fuel b st = Ok (ls, st') ->
   (In (Some t) (tags_stmts b) <-> exists i id, nth_error ls i = Some (Code id (Some t))).
 Proof. intros H. rewrite <- in_line_tags, (stmts_tags_exact _ _ _ _ _ _ H). symmetry. apply in_somes. Qed.
+
+(* ------------------------------------------------------------------ the file name of a directive resolves to the source file *)
+
+Lemma str_eqb_refl x : str_eqb x x = true.
+Proof. apply str_eqb_eq. reflexivity. Qed.
+
+Lemma resolve_plain t : forall acc, forallb plain_comp t = true -> resolve_path acc t = rev acc ++ t.
+Proof.
+  induction t as [|c t IH]; intros acc H; simpl.
+  - now rewrite app_nil_r.
+  - simpl in H. apply andb_prop in H as [Hc Ht]. unfold plain_comp in Hc.
+    apply andb_prop in Hc as [Hc _]. apply andb_prop in Hc as [H1 H2].
+    apply negb_true_iff in H1, H2. rewrite H1, H2. rewrite IH by assumption. simpl. now rewrite <- app_assoc.
+Qed.
+
+Lemma resolve_ups b : forall acc t, forallb plain_comp t = true ->
+  resolve_path (rev b ++ acc) (map (fun _ => dotdot) b ++ t) = rev acc ++ t.
+Proof.
+  induction b as [|x b IH] using rev_ind; intros acc t Ht.
+  - simpl. apply resolve_plain. exact Ht.
+  - rewrite rev_app_distr. simpl rev. cbn [app]. rewrite map_app. cbn [map]. rewrite <- app_assoc. cbn [app].
+    (* peel the LAST "..": it pops x, the head of the reversed base *)
+    replace (map (fun _ : str => dotdot) b ++ dotdot :: t) with (dotdot :: map (fun _ : str => dotdot) b ++ t).
+    + cbn [resolve_path]. rewrite str_eqb_refl. cbn [tl]. apply IH. exact Ht.
+    + clear. induction b as [|y b IHb]; simpl; auto. now rewrite IHb.
+Qed.
+
+Lemma strip_common_spec b : forall t b' t',
+  strip_common b t = (b', t') -> exists pre, b = pre ++ b' /\ t = pre ++ t'.
+Proof.
+  induction b as [|x b IH]; intros t b' t' H.
+  - simpl in H. inversion H; subst. exists []. auto.
+  - destruct t as [|y t]; simpl in H.
+    + inversion H; subst. exists []. auto.
+    + destruct (str_eqb x y) eqn:E.
+      * apply str_eqb_eq in E. subst y. apply IH in H as (pre & A & B). exists (x :: pre). simpl. now rewrite <- A, <- B.
+      * inversion H; subst. exists []. auto.
+Qed.
+
+(* the name written in the directive, read against RelativeBase, is the XGo source file *)
+Lemma rel_path_resolves base targ :
+  forallb plain_comp base = true -> forallb plain_comp targ = true -> targ <> [] ->
+  resolve_against base (rel_path base targ) = targ.
+Proof.
+  intros Hb Ht Hne. unfold rel_path, resolve_against.
+  destruct (strip_common base targ) as [b' t'] eqn:E.
+  apply strip_common_spec in E as (pre & A & B).
+  assert (Ht' : forallb plain_comp t' = true) by (rewrite B, forallb_app in Ht; apply andb_prop in Ht; tauto).
+  assert (Hres : resolve_path (rev base) (map (fun _ => dotdot) b' ++ t') = targ).
+  { rewrite A, rev_app_distr. rewrite resolve_ups by assumption. rewrite rev_involutive. now rewrite B. }
+  destruct (map (fun _ => dotdot) b' ++ t') as [|c l] eqn:El; [|exact Hres].
+  (* base = targ: the name is "." and denotes the base itself *)
+  apply app_eq_nil in El as [E1 E2]. apply map_eq_nil in E1. subst b' t'. rewrite app_nil_r in A, B. subst.
+  cbn [resolve_path]. unfold dot1, dotdot. cbn. now rewrite rev_involutive.
+Qed.
